@@ -146,7 +146,8 @@ def gen(rng, tier, ctx):
         pat = {"type": "Shelf", "attrs": attrs}
     else:
         pat = gen_box_pattern(rng, world, 0, allow_select)
-    return {"world": world, "pattern": pat, "root_selected": allow_select and rng.random() < 0.5}
+    return {"world": world, "pattern": pat, "root_selected": allow_select and rng.random() < 0.5,
+            "again": rng.randrange(1, 10 ** 6) if rng.random() < 0.3 else None}
 
 
 def witnesses():
@@ -437,6 +438,36 @@ def run(spec, ctx):
         C["fail:" + (key or "UNEXPLAINED")] += 1
         detail = extra_problems[:2] + [f"missing elements {[idn.get(id(o), '?') for o in missing_problems][:4]}"] * bool(missing_problems) + lost_parts[:2]
         return {"status": "fail", "kind": "pattern-mismatch", "key": key, "detail": "; ".join(detail) + " | " + skeleton(pat)}
+    if spec.get("again") and not selects:
+        # the same query object once more after collections it looks at were changed IN PLACE
+        import random
+        rng = random.Random(spec["again"])
+        for b in boxes:
+            r = rng.random()
+            if r < 0.4 and b.parts:
+                b.parts.pop(rng.randrange(len(b.parts)))
+            elif r < 0.8:
+                b.parts.append(rng.choice(parts))
+            if rng.random() < 0.3 and b.tags:
+                b.tags.pop()
+            elif rng.random() < 0.3:
+                b.tags.append(rng.choice("xyz"))
+        exp2 = {id(o) for o in dom if matches(o, pat, mm, parts)}
+        try:
+            got2 = {id(r) for r in q.evaluate()}
+        except Exception as e:
+            return {"status": "fail", "kind": "again:exception:" + type(e).__name__, "key": None,
+                    "detail": f"second evaluation after in-place changes: {type(e).__name__}: {e}"[:300] + " | " + skeleton(pat)}
+        C["reevaluations_after_in_place_changes"] += 1
+        if got2 != exp2:
+            entries = [e for o in dom if isinstance(o, root_T) for e in any_entries(o, pat)]
+            key = None
+            if not (got2 - exp2) and all(has_twin(i, entries) for i in exp2 - got2):
+                key = "match-any-collapses-equal-collections"
+            C["fail:" + (key or "UNEXPLAINED")] += 1
+            return {"status": "fail", "kind": "again:pattern-mismatch", "key": key,
+                    "detail": f"second evaluation after in-place changes of the collections: extra {[idn.get(i, '?') for i in got2 - exp2][:3]} "
+                              f"missing {[idn.get(i, '?') for i in exp2 - got2][:3]} | " + skeleton(pat)}
     n_root = sum(1 for o in dom if isinstance(o, root_T))
     return {"status": "ok", "nontrivial": 0 < len(exp) < n_root, "shape": skeleton(pat) + ("|rootsel" if spec["root_selected"] else ""),
             "obs": {"expected": len(exp), "rows": len(rows)}}
